@@ -47,18 +47,24 @@ func New(opts *redis.Options) kvs.Storage {
 func (c *client) Create(ctx context.Context, record kvs.Record) (string, error) {
 	record.Version = ulidutils.NewID()
 	buf := rec2db(&record)
-	ok, err := c.rdb.SetNX(ctx, rKey(record.Key), buf, expiration(record.ExpiresAt, time.Now())).Result()
-	if err != nil {
-		return "", checkErr(err)
-	}
-	if !ok {
+	for {
+		ok, err := c.rdb.SetNX(ctx, rKey(record.Key), buf, expiration(record.ExpiresAt, time.Now())).Result()
+		if err != nil {
+			return "", checkErr(err)
+		}
+		if ok {
+			return record.Version, nil
+		}
 		// report the version of the record, which is already there
-		if r, err := c.Get(ctx, record.Key); err == nil {
+		r, err := c.Get(ctx, record.Key)
+		if err == nil {
 			return r.Version, errors.ErrExist
 		}
-		return "", errors.ErrExist
+		if err != errors.ErrNotExist {
+			return "", err
+		}
+		// the record has gone in between, so the key is free again
 	}
-	return record.Version, nil
 }
 
 func (c *client) Get(ctx context.Context, key string) (kvs.Record, error) {
